@@ -84,12 +84,16 @@ def values_for(name):
                 ("early", lambda: (datetime(800, 12, 25, 9, tzinfo=UTC), timedelta(hours=1)))]
     if typ == "DURATION":
         v = [("1h", lambda: timedelta(hours=1)), ("-15m", lambda: timedelta(minutes=-15)), ("1d", lambda: timedelta(days=1)),
-             ("zero", lambda: timedelta(0))]
+             ("zero", lambda: timedelta(0)),
+             # negative values with every unit, seconds other than 0 / 30 (a sign applied per part shows here), whole weeks
+             ("-15s", lambda: timedelta(seconds=-15)), ("-1h22s", lambda: timedelta(hours=-1, seconds=-22)), ("-2d1s", lambda: timedelta(days=-2, seconds=-1)),
+             ("90s", lambda: timedelta(seconds=90)), ("-1w", lambda: timedelta(weeks=-1)), ("2w", lambda: timedelta(weeks=2)), ("-1d23h59m59s", lambda: -timedelta(days=1, hours=23, minutes=59, seconds=59))]
         if "DATE-TIME" in alts:
             v.append(("abs-utc", lambda: datetime(2024, 3, 1, 8, tzinfo=UTC)))
         return v
     if typ == "DATE-TIME" and name in RP.UTC_ONLY:
-        v = [("utc", lambda: datetime(2024, 3, 1, 8, 30, 5, tzinfo=UTC)), ("early-utc", lambda: datetime(999, 1, 2, 3, 4, 5, tzinfo=UTC))]
+        v = [("utc", lambda: datetime(2024, 3, 1, 8, 30, 5, tzinfo=UTC)), ("early-utc", lambda: datetime(999, 1, 2, 3, 4, 5, tzinfo=UTC)),
+             ("utc-fraction", lambda: datetime(2024, 3, 1, 8, 59, 59, 999999, tzinfo=UTC))]
         if name != "COMPLETED":
             v += [("naive-as-utc", lambda: datetime(2024, 3, 1, 8, 30, 5)), ("zoned-to-utc", lambda: zoned(ZA, 2024, 3, 1, 9, 30, 5)),
                   # zones that are NOT UTC but are at offset zero at that moment: still converted, still written with Z
@@ -106,7 +110,10 @@ def values_for(name):
                 ("zoned-dateutil", lambda: zoned_dateutil(ZA, 2024, 3, 31, 3, 30)), ("zoned-other-lib", lambda: zoned_other(ZB, 2024, 11, 3, 3, 30)),
                 # the ends of the value domain: years that need zero padding, the last representable second
                 ("early-naive", lambda: datetime(800, 12, 25, 9, 30)), ("early-utc", lambda: datetime(999, 1, 2, 3, 4, 5, tzinfo=UTC)),
-                ("early-date", lambda: date(33, 4, 3)), ("late-utc", lambda: datetime(9999, 12, 31, 23, 59, 59, tzinfo=UTC))]
+                ("early-date", lambda: date(33, 4, 3)), ("late-utc", lambda: datetime(9999, 12, 31, 23, 59, 59, tzinfo=UTC)),
+                # a fraction of a second: the text has one-second resolution, the value keeps its second (no rounding up)
+                ("utc-fraction", lambda: datetime(2024, 3, 1, 8, 59, 59, 999999, tzinfo=UTC)), ("naive-fraction", lambda: datetime(2024, 12, 31, 23, 59, 59, 600000)),
+                ("zoned-fraction", lambda: zoned(ZA, 2024, 3, 1, 8, 59, 59).replace(microsecond=500001))]
     if typ == "DATE-TIME" and is_list:
         v = [("dates", lambda: [date(2024, 3, 1), date(2024, 3, 2)]), ("zoned", lambda: [zoned(ZA, 2024, 3, 1, 8), zoned(ZA, 2024, 3, 2, 8)]),
              ("utc", lambda: [datetime(2024, 3, 1, 8, tzinfo=UTC)]), ("single-naive", lambda: datetime(2024, 3, 1, 8)),
